@@ -139,3 +139,29 @@ def run(ctx):
         'never filters anything; an associate name that shadows a variable of the routine (FMachine: not modelled)',
         'populations are syntactic classes of the generator, the verdict is always Run(original) = observed(transformed)',
     ]
+
+
+def selftest(ctx):
+    """Binding / sensitivity: an accepted recorded behaviour of a program with section aliases, shadowing and
+    associate names as actual arguments is corrupted; TLC must reject every corruption."""
+    import copy
+    import random
+    from ..selftests import _expect
+    for seed in range(20):
+        g = S.AssocGen(random.Random(100 + seed), FEATURES, **POPS['secshift' if seed % 2 else 'shadow'])
+        prog = g.program(nstmts=5, depth=2)
+        inp = g.inputs(prog, 1)
+        st, out, err = F.compile_run(ctx.work, f'selftest{seed}', [('kmod.f90', F.render(prog)), ('drv.f90', F.driver_text(prog, 'kernel', inp))])
+        if st != 'ok':
+            continue
+        obs = F.parse_output(out, 1)[0]
+        good = {'prog': prog, 'entry': 'kernel', 'input': F.input_json(inp[0]), 'observed': obs, 'mode': 'preflight'}
+        if ctx.validate('Trace_FMachine', 'Trace_ExprEquiv', [good], shards=1)[0][0]:
+            break
+    else:
+        raise F.MachineryError('selftest: no legal program found')
+    b1 = copy.deepcopy(good); b1['observed'][0][1] += 1
+    b2 = copy.deepcopy(good); b2['observed'] = b2['observed'][:-1]
+    b3 = copy.deepcopy(good); b3['observed'][len(obs) // 2][1] -= 1
+    return _expect(ctx, 'Trace_FMachine', 'Trace_ExprEquiv', good, [b1, b2, b3],
+                   ['first output value changed', 'last output value missing', 'middle output value changed'])
